@@ -114,6 +114,7 @@ class Device(object):
                 kwargs["server"]["control"]["done"] = True
             saved = network.server_main
             network.server_main = stub
+            dict.clear(enip_main.tags)          # (main() keeps its tags in a module-level table: a fresh simulator starts with none)
             try:
                 enip_main.main(argv=["--no-config", "--address", "localhost:0"] + texts, attribute_class=attribute_class)
             finally:
